@@ -27,7 +27,11 @@ fn judge() -> seqmc::Judge {
     Arc::new(|e: &Exec| {
         // the property names the exhaustion error only: the class of other failures is not judged here
         let names_exhaustion = |m: &&crate::exec::Mismatch| match m.cat {
-            Cat::WrongErrClass => matches!(e.steps.get(m.step).map(|s| &s.expect), Some(Expect::Err(c)) if c.contains(&EClass::Exhausted)),
+            // ... and only where exhaustion is the one error that applies (a garbage or undersized delivery at an
+            // exhausted counter may be refused for either reason, with whatever class that reason has)
+            Cat::WrongErrClass => matches!(e.steps.get(m.step).map(|s| &s.expect), Some(Expect::Err(c)) if c.len() == 1 && c.contains(&EClass::Exhausted)),
+            // a call that should have failed and did not: this property's business if it should have failed as exhausted
+            Cat::ExpectedErrGotOk => matches!(e.steps.get(m.step).map(|s| &s.expect), Some(Expect::Err(c)) if c.contains(&EClass::Exhausted)),
             // a usable nonce refused is this property's business only if it is refused as exhausted
             Cat::ExpectedOkGotErr => matches!(e.steps.get(m.step).map(|s| &s.real), Some(Real::Err(EClass::Exhausted))),
             _ => true,
@@ -36,7 +40,10 @@ fn judge() -> seqmc::Judge {
         // the reserved nonce must never reach the cipher's encrypt/decrypt (rekey is logged separately)
         for s in SIDES {
             for ev in e.logs[s.idx()].cipher_since(0) {
-                if ev.nonce == u64::MAX && matches!(ev.op, CipherOp::Encrypt | CipherOp::Decrypt) {
+                // (REKEY is by definition ENCRYPT(k, 2^64-1, "", zeros[32]): a backend-independent rekey that
+                // spells this out through Cipher::encrypt encrypts no message)
+                let is_rekey_computation = matches!(ev.op, CipherOp::Encrypt) && ev.ad.is_empty() && ev.data.len() == 32 && ev.data.iter().all(|b| *b == 0);
+                if ev.nonce == u64::MAX && matches!(ev.op, CipherOp::Encrypt | CipherOp::Decrypt) && !is_rekey_computation {
                     v.push((format!("reserved nonce 2^64-1 passed to Cipher::{:?}", ev.op), format!("{}: endpoint {s:?} cipher object {}", e.cfg.name, ev.obj)));
                 }
             }
